@@ -2,7 +2,10 @@ package hs
 
 import (
 	"bytes"
+	"encoding/base64"
+	"encoding/json"
 	"fmt"
+	"reflect"
 	"strings"
 )
 
@@ -122,7 +125,7 @@ func parseSym(sym string) symInfo {
 			si.from, si.fromFull = GuestUUID+"@verif.local", GuestUUID+"@verif.local/home"
 		case "guest-nonuuid", "scheme-only":
 			si.scheme = "guest"
-		case "plain-good", "plain-bad", "plain-notb64":
+		case "plain-good", "plain-bad", "plain-notb64", "plain-empty":
 			si.scheme = "plain"
 		case "key":
 			si.scheme = "key"
@@ -155,6 +158,34 @@ func parseSym(sym string) symInfo {
 	return si
 }
 
+// credJSON is the authentication object a credential class carries on the wire.
+func credJSON(cred string) (string, bool) {
+	b64 := func(x string) string { return base64.StdEncoding.EncodeToString([]byte(x)) }
+	switch cred {
+	case "guest-uuid", "guest-nonuuid", "nofrom", "transport":
+		return `{}`, true
+	case "plain-good":
+		return `{"password":"` + b64(GoodPassword) + `"}`, true
+	case "plain-bad":
+		return `{"password":"` + b64("wrong") + `"}`, true
+	case "plain-empty":
+		return `{"password":""}`, true
+	case "key":
+		return `{"key":"` + b64(GoodKey) + `"}`, true
+	case "external":
+		return `{"token":"` + GoodToken + `","issuer":"iss"}`, true
+	}
+	return "", false
+}
+
+func sameJSON(a, b string) bool {
+	var x, y interface{}
+	if json.Unmarshal([]byte(a), &x) != nil || json.Unmarshal([]byte(b), &y) != nil {
+		return a == b
+	}
+	return reflect.DeepEqual(x, y)
+}
+
 // expected outcome of Authenticate for a credential class under the builder's authenticators.
 func builderOutcome(cfg Config, cred string) string {
 	have := cfg.AuthSource == "builder"
@@ -168,7 +199,7 @@ func builderOutcome(cfg Config, cred string) string {
 			return "member"
 		}
 		return "error"
-	case "plain-bad":
+	case "plain-bad", "plain-empty":
 		if have {
 			return "unknown"
 		}
@@ -577,6 +608,9 @@ func Classify(tr *Trace) *Verdict {
 					if a.AuthType != wantType {
 						v.issue("C03", "C03/authenticate-credentials", "Authenticate was called with %s %s for an envelope carrying scheme %q (%s)", a.AuthType, a.AuthJSON, si.scheme, si.cred)
 					}
+					if want, ok := credJSON(si.cred); ok && a.AuthType == wantType && !sameJSON(want, a.AuthJSON) {
+						v.issue("C03", "C03/authenticate-credentials-content", "Authenticate was called with credentials %s; the envelope (%s) carried %s", a.AuthJSON, si.cred, want)
+					}
 					if negotiated && a.Enc != confirmedEnc {
 						v.issue("C09", "C09/encryption-at-authenticate", "negotiation confirmed encryption %q but the server transport reports %q while authenticating", confirmedEnc, a.Enc)
 					}
@@ -778,6 +812,21 @@ func Classify(tr *Trace) *Verdict {
 				v.issue("C10", "C10/established-in-cleartext", "session established over cleartext although EncryptOpts=%v (script %v)", cfg.Enc, tr.Script)
 			case e.T == "established" && e.Enc == "none":
 				v.issue("C10", "C10/established-in-cleartext", "session established while the transport's encryption is none although EncryptOpts=%v (script %v)", cfg.Enc, tr.Script)
+			}
+		}
+	}
+	// ---- C09: credentials handed to Authenticate after a tls confirmation must have travelled under TLS -----
+	{
+		tlsConfirmed := false
+		sentClear := map[int]bool{} // step -> the client's bytes of that step went out in cleartext
+		for _, e := range tr.Events {
+			switch {
+			case e.T == "recv" && e.Env != nil && e.Env["state"] == "negotiating" && e.Env["encryption"] == "tls" && e.Env["encryptionOptions"] == nil:
+				tlsConfirmed = true
+			case e.T == "send" && !e.OverTLS:
+				sentClear[e.Step] = true
+			case (e.T == "auth" || e.T == "auth-builder") && tlsConfirmed && sentClear[e.Step]:
+				v.issue("C09", "C09/cleartext-credentials-after-confirmation", "tls was confirmed, yet Authenticate ran on credentials that the client had written before the TLS handshake, in cleartext (step %d of script %v)", e.Step, tr.Script)
 			}
 		}
 	}
